@@ -309,6 +309,17 @@ func c09(c *Ctx) {
 					if p.Required != h.Required {
 						c.R.Violate(caseID, "published-required-differs", "", map[string]any{"proto": protoText, "header": h.Name, "declared_required": h.Required, "published_required": p.Required})
 					}
+					// the published type/format is the one of the declaration that applies to this method
+					wantType, wantFormat := h.Type, h.Format
+					if wantType == "" {
+						wantType = "string"
+					}
+					sch := oas.M(p.Schema)
+					gotType, gotFormat := oas.S(sch["type"]), oas.S(sch["format"])
+					if gotType != wantType || gotFormat != wantFormat {
+						c.R.Violate(caseID, "published-type-differs", "", map[string]any{"proto": protoText, "header": h.Name, "operation": op.Path,
+							"declared": wantType + "/" + wantFormat, "published": gotType + "/" + gotFormat})
+					}
 				}
 			}
 			c.R.Decided(caseID)
